@@ -664,8 +664,68 @@ func errDiag(v ssa.Value, seen map[ssa.Value]bool) bool {
 			}
 		}
 		return len(x.Edges) > 0
+	case *ssa.UnOp:
+		// load of a cell: the value last stored into it earlier in the same block
+		if x.Op == token.MUL {
+			var last ssa.Value
+			for _, ins := range x.Block().Instrs {
+				if ins == ssa.Instruction(x) {
+					break
+				}
+				if st, ok := ins.(*ssa.Store); ok && (st.Addr == x.X || sameAddr(st.Addr, x.X)) {
+					last = st.Val
+				}
+			}
+			if last != nil {
+				return errDiag(last, seen)
+			}
+		}
+	case *ssa.Extract:
+		// result of a helper or local closure all of whose returns carry an error diagnostic there
+		if call, ok := x.Tuple.(*ssa.Call); ok {
+			if cal := staticCallee(&call.Call); cal != nil && alwaysErrResult(cal, x.Index, 0) {
+				return true
+			}
+		}
+	}
+	if call, ok := v.(*ssa.Call); ok && isDiagnosticsType(call.Type()) {
+		if cal := staticCallee(&call.Call); cal != nil && inModule(cal) && alwaysErrResult(cal, 0, 0) {
+			return true
+		}
 	}
 	return false
+}
+
+var alwaysErrMemo = map[[2]interface{}]bool{}
+
+// alwaysErrResult: every return of fn has, at result index idx, diagnostics that definitely
+// contain an error (a helper whose only job is to build the error result).
+func alwaysErrResult(fn *ssa.Function, idx, depth int) bool {
+	if depth > 3 || len(fn.Blocks) == 0 || !inModule(fn) {
+		return false
+	}
+	key := [2]interface{}{fn, idx}
+	if v, ok := alwaysErrMemo[key]; ok {
+		return v
+	}
+	alwaysErrMemo[key] = false // recursion guard
+	res := fn.Signature.Results()
+	if idx >= res.Len() || !isDiagnosticsType(res.At(idx).Type()) {
+		return false
+	}
+	n := 0
+	for _, b := range fn.Blocks {
+		ret, ok := b.Instrs[len(b.Instrs)-1].(*ssa.Return)
+		if !ok {
+			continue
+		}
+		n++
+		if !errDiag(lookThrough(ret.Results[idx]), map[ssa.Value]bool{}) {
+			return false
+		}
+	}
+	alwaysErrMemo[key] = n > 0
+	return n > 0
 }
 
 // diagFlowsInto: diagnostics X is contained in D (same value or appended into it).
